@@ -155,7 +155,7 @@ PROPS["C02"] = dict(
     require=["tree_spelling_pairs", "trees", "set:statement_kinds:19", "set:operators_and_forms:18",
              "set:alias_pairs:131", "set:forced_pairs_ok:134"],
     assumptions=TRUST_BASE,
-    stages=dict(quick=[native("dbg", scale=15)], thorough=[native("dbg"), native("rel")]),
+    stages=dict(quick=[native("dbg", scale=15)], thorough=[native("dbg", scale=2), native("rel", scale=2)]),
 )
 
 PROPS["C11"] = dict(
@@ -174,7 +174,7 @@ PROPS["C11"] = dict(
     require=["number_literals", "printed_values_compared", "strings_compared", "ordinary_expression_cases_agreed",
              "set:shapes:6"],
     assumptions=TRUST_BASE,
-    stages=dict(quick=[native("dbg", scale=15)], thorough=[native("dbg"), native("rel")]),
+    stages=dict(quick=[native("dbg", scale=15)], thorough=[native("dbg", scale=20), native("rel", scale=20)]),
 )
 
 PROPS["C12"] = dict(
@@ -192,7 +192,7 @@ PROPS["C12"] = dict(
              "set:token_types:70"],
     assumptions=TRUST_BASE,
     stages=dict(quick=[native("dbg", scale=9), native("rel", scale=9)],
-                thorough=[native("dbg"), native("rel"),
+                thorough=[native("dbg", scale=10), native("rel", scale=10),
                           custom("miri_stage", release=True, shards=16, scale=4, name="miri:release")]),
 )
 
@@ -210,7 +210,7 @@ PROPS["C13"] = dict(
     require=["triples", "rejected_on_the_right_line", "positions_after_multi_line_tokens",
              "fault_on_last_line_without_newline", "set:catalogue_entries_used:80", "set:error_codes:9"],
     assumptions=TRUST_BASE,
-    stages=dict(quick=[native("dbg", scale=18)], thorough=[native("dbg"), native("rel")]),
+    stages=dict(quick=[native("dbg", scale=18)], thorough=[native("dbg", scale=3), native("rel", scale=3)]),
 )
 
 PROPS["C14"] = dict(
@@ -252,7 +252,7 @@ PROPS["C03"] = dict(
              "set:api_kind_cells:240", "set:program_kind_cells:300"],
     assumptions=TRUST_BASE + ["budget: <= 20000 statements, call depth <= 64, values <= 10^5 bytes/elements (larger: discarded before rrss runs)"],
     stages=dict(quick=[native("dbg", scale=24)],
-                thorough=[native("dbg"), native("rel"),
+                thorough=[native("dbg", scale=6), native("rel", scale=6),
                           custom("miri_stage", release=False, shards=16, scale=1, name="miri:dev")]),
 )
 
@@ -271,7 +271,7 @@ PROPS["C04"] = dict(
     require=["programs", "markers_checked", "model.loop_iterations", "model.breaks", "model.continues", "model.else_taken",
              "runs_stopped_by_planted_error_with_output_preserved", "h3_events_checked", "statements_matched"],
     assumptions=TRUST_BASE,
-    stages=dict(quick=[native("dbg", scale=15)], thorough=[native("dbg"), native("rel")]),
+    stages=dict(quick=[native("dbg", scale=15)], thorough=[native("dbg", scale=10), native("rel", scale=10)]),
 )
 
 PROPS["C05"] = dict(
@@ -292,7 +292,7 @@ PROPS["C05"] = dict(
              "probe.pronoun_probe_after_call", "probe.pronoun_probe_after_block", "probe.wrong_arity",
              "probe.call_of_variable", "probe.read_unknown_name", "probe.call_unknown_function", "h3_events_checked"],
     assumptions=TRUST_BASE,
-    stages=dict(quick=[native("dbg", scale=12)], thorough=[native("dbg"), native("rel")]),
+    stages=dict(quick=[native("dbg", scale=12)], thorough=[native("dbg", scale=6), native("rel", scale=6)]),
 )
 
 PROPS["C06"] = dict(
@@ -313,7 +313,7 @@ PROPS["C06"] = dict(
              "op.array_in_expression", "op.error_array_as_key_read", "op.error_array_as_key_write"],
     assumptions=TRUST_BASE,
     stages=dict(quick=[native("dbg", scale=18)],
-                thorough=[native("dbg"), native("rel"),
+                thorough=[native("dbg", scale=3), native("rel", scale=3),
                           custom("miri_stage", release=False, shards=16, scale=1, name="miri:dev")]),
 )
 
@@ -332,7 +332,7 @@ PROPS["C07"] = dict(
              "cases.cut.IntoVariable", "cases.cut.InPlaceVariable", "cases.join.IntoSubscript", "cases.cast_string.InPlacePronoun",
              "cases.cast_number.FromSubscriptInto", "cases.turn.InPlaceVariable", "cases.turn.FromSubscriptInto"],
     assumptions=TRUST_BASE,
-    stages=dict(quick=[native("dbg", scale=12), native("rel", scale=12)], thorough=[native("dbg"), native("rel")]),
+    stages=dict(quick=[native("dbg", scale=12), native("rel", scale=12)], thorough=[native("dbg", scale=15), native("rel", scale=15)]),
 )
 
 PROPS["C08"] = dict(
@@ -356,7 +356,7 @@ PROPS["C08"] = dict(
              "cli_fault.stdin_invalid_utf8", "cli_fault_runs_held"],
     assumptions=TRUST_BASE,
     stages=dict(quick=[native("dbg", scale=18), custom("c08_cli_faults", builds=["cli", "dbg"], n=48)],
-                thorough=[native("dbg"), native("rel"), custom("c08_cli_faults", builds=["cli", "dbg"], n=600)]),
+                thorough=[native("dbg", scale=30), native("rel", scale=30), custom("c08_cli_faults", builds=["cli", "dbg"], n=600)]),
 )
 
 PROPS["C09"] = dict(
@@ -378,10 +378,10 @@ PROPS["C09"] = dict(
     assumptions=TRUST_BASE,
     stages=dict(
         quick=[native("dbg"), native("rel"), custom("miri_stage", release=True, shards=16, scale=1, name="miri:release")],
-        thorough=[native("dbg"), native("rel"),
+        thorough=[native("dbg", scale=2), native("rel", scale=2),
                   custom("miri_stage", release=True, shards=16, scale=8, name="miri:release"),
                   custom("miri_stage", release=False, shards=16, scale=8, name="miri:dev"),
-                  custom("asan_stage", builds=["asan"], scale=0.2, name="asan"),
+                  custom("asan_stage", builds=["asan"], scale=0.08, name="asan"),
                   custom("fuzz_stage", builds=["dbg", "rel"], target="exec_total", seconds=240, name="libfuzzer:exec_total")],
     ),
 )
@@ -456,7 +456,7 @@ PROPS["C10"] = dict(
     assumptions=TRUST_BASE,
     stages=dict(
         quick=[native("dbg", scale=9), custom("c10_processes", builds=["cli", "dbg"], n=48, reps=4)],
-        thorough=[native("dbg"), native("rel"), custom("c10_processes", builds=["cli", "dbg"], n=400, reps=8)],
+        thorough=[native("dbg", scale=4), native("rel", scale=4), custom("c10_processes", builds=["cli", "dbg"], n=400, reps=8)],
     ),
 )
 
@@ -660,7 +660,7 @@ PROPS["C15"] = dict(
     require=["transforms", "mentions_renamed_and_recased", "programs.c03", "programs.c04", "programs.c05", "programs.c06",
              "programs.c07", "set:kind_to_kind:9", "set:mention_positions:16", "set:base_outcomes:8"],
     assumptions=TRUST_BASE,
-    stages=dict(quick=[native("dbg", scale=12)], thorough=[native("dbg"), native("rel")]),
+    stages=dict(quick=[native("dbg", scale=12)], thorough=[native("dbg", scale=2), native("rel", scale=2)]),
 )
 
 PROPS["C16"] = dict(
@@ -679,7 +679,7 @@ PROPS["C16"] = dict(
     require=["trees", "walks_matched", "events_compared", "failure_injection_runs", "set:node_types_observed:15",
              "set:statement_kinds:19", "set:event_types:9"],
     assumptions=TRUST_BASE,
-    stages=dict(quick=[native("dbg", scale=15)], thorough=[native("dbg"), native("rel")]),
+    stages=dict(quick=[native("dbg", scale=15)], thorough=[native("dbg", scale=8), native("rel", scale=8)]),
 )
 
 PROPS["C17"] = dict(
@@ -695,7 +695,7 @@ PROPS["C17"] = dict(
     require=["constant_expressions", "non_constant_expressions", "folded_values_compared_with_execution", "non_constants_rejected",
              "non_finite_results", "poetic_literals", "string_folder_cases", "set:leaf_forms:8", "set:string_forms:12"],
     assumptions=TRUST_BASE,
-    stages=dict(quick=[native("dbg", scale=15)], thorough=[native("dbg"), native("rel")]),
+    stages=dict(quick=[native("dbg", scale=15)], thorough=[native("dbg", scale=20), native("rel", scale=20)]),
 )
 
 PROPS["C18"] = dict(
@@ -714,7 +714,7 @@ PROPS["C18"] = dict(
     require=["programs", "candidate_statements", "diagnostics_matched", "diagnostic_lines_checked", "suggestions_spelling_checked",
              "suggestions_round_tripped", "values_without_poetic_spelling_handled", "set:value_classes:11"],
     assumptions=TRUST_BASE,
-    stages=dict(quick=[native("dbg", scale=12), native("rel", scale=12)], thorough=[native("dbg"), native("rel")]),
+    stages=dict(quick=[native("dbg", scale=12), native("rel", scale=12)], thorough=[native("dbg", scale=20), native("rel", scale=20)]),
 )
 
 PROPS["C19"] = dict(
@@ -732,7 +732,7 @@ PROPS["C19"] = dict(
              "programs_linted.ill_typed", "diagnostics", "line_ties_between_passes", "mentions.must_report",
              "mentions.must_not_report", "mentions.dont_care", "programs_rule_checked"],
     assumptions=TRUST_BASE,
-    stages=dict(quick=[native("dbg", scale=12), native("rel", scale=12)], thorough=[native("dbg"), native("rel")]),
+    stages=dict(quick=[native("dbg", scale=12), native("rel", scale=12)], thorough=[native("dbg", scale=12), native("rel", scale=12)]),
 )
 
 PROPS["C20"] = dict(
@@ -752,8 +752,8 @@ PROPS["C20"] = dict(
     assumptions=TRUST_BASE,
     stages=dict(
         quick=[custom("c20_cli", builds=["cli", "dbg"], n=700, cli="cli")],
-        thorough=[custom("c20_cli", builds=["cli", "dbg"], n=4000, cli="cli"),
-                  custom("c20_cli", builds=["cli-dev", "dbg"], n=1000, cli="cli-dev"),
+        thorough=[custom("c20_cli", builds=["cli", "dbg"], n=12000, cli="cli"),
+                  custom("c20_cli", builds=["cli-dev", "dbg"], n=3000, cli="cli-dev"),
                   custom("c20_valgrind", builds=["cli"], n=60)],
     ),
 )
